@@ -28,6 +28,17 @@ ValArr = z3.ArraySort(I, Val)            # list elements / object fields
 HasArr = z3.ArraySort(Val, B)            # dict / set membership
 ValMap = z3.ArraySort(Val, Val)          # dict values
 
+def _forall(vs, body, patterns=None):
+  """ForAll with the given trigger when z3 accepts it (terms containing `ite` are not valid
+  triggers), inferred triggers otherwise."""
+  if patterns:
+    try:
+      return z3.ForAll(vs, body, patterns=patterns)
+    except z3.Z3Exception:
+      pass
+  return z3.ForAll(vs, body)
+
+
 # ---------------------------------------------------------------------------
 # class tags (python side enumeration; `cls` heap array maps ref -> tag)
 
@@ -174,41 +185,41 @@ def WF(g):
   inr = lambda x: z3.And(0 <= x, x < n)
   return z3.And(
       n >= 0,
-      z3.ForAll([i], z3.Implies(inr(i), z3.And(0 <= k(i), k(i) <= 4)), patterns=[k(i)]),
-      z3.ForAll([i, j], z3.Implies(z3.And(0 <= i, i < j, j < n),
+      _forall([i], z3.Implies(inr(i), z3.And(0 <= k(i), k(i) <= 4)), patterns=[k(i)]),
+      _forall([i, j], z3.Implies(z3.And(0 <= i, i < j, j < n),
                                    z3.And(k(i) <= k(j),
                                           z3.Implies(k(i) == k(j), z3.And(k(i) != VP, k(i) != VK)))),
                 patterns=[z3.MultiPattern(k(i), k(j))]),
-      z3.ForAll([i], z3.Implies(inr(i), sig_idx(g, sig_name(g, i)) == i),
+      _forall([i], z3.Implies(inr(i), sig_idx(g, sig_name(g, i)) == i),
                 patterns=[sig_name(g, i)]),
-      z3.ForAll([s], z3.Or(sig_idx(g, s) == -1,
+      _forall([s], z3.Or(sig_idx(g, s) == -1,
                            z3.And(inr(sig_idx(g, s)), sig_name(g, sig_idx(g, s)) == s)),
                 patterns=[sig_idx(g, s)]),
-      z3.ForAll([i], z3.Implies(z3.And(inr(i), z3.Or(k(i) == VP, k(i) == VK)),
+      _forall([i], z3.Implies(z3.And(inr(i), z3.Or(k(i) == VP, k(i) == VK)),
                                 z3.Not(sig_hasdef(g, i))), patterns=[sig_hasdef(g, i)]),
-      z3.ForAll([i, j], z3.Implies(z3.And(0 <= i, i < j, j < n, k(j) <= PK, sig_hasdef(g, i)),
+      _forall([i, j], z3.Implies(z3.And(0 <= i, i < j, j < n, k(j) <= PK, sig_hasdef(g, i)),
                                    sig_hasdef(g, j)),
                 patterns=[z3.MultiPattern(sig_hasdef(g, i), sig_hasdef(g, j))]),
-      z3.ForAll([i], z3.Implies(z3.And(inr(i), sig_hasdef(g, i)), sig_dflt(g, i) != EMPTY),
+      _forall([i], z3.Implies(z3.And(inr(i), sig_hasdef(g, i)), sig_dflt(g, i) != EMPTY),
                 patterns=[sig_dflt(g, i)]),
       # derived: vps
       z3.Or(z3.And(sig_vps(g) == -1,
-                   z3.ForAll([i], z3.Implies(inr(i), k(i) != VP), patterns=[k(i)])),
+                   _forall([i], z3.Implies(inr(i), k(i) != VP), patterns=[k(i)])),
             z3.And(inr(sig_vps(g)), k(sig_vps(g)) == VP)),
       # derived: vk
       z3.Or(z3.And(sig_vk(g) == -1,
-                   z3.ForAll([i], z3.Implies(inr(i), k(i) != VK), patterns=[k(i)])),
+                   _forall([i], z3.Implies(inr(i), k(i) != VK), patterns=[k(i)])),
             z3.And(inr(sig_vk(g)), k(sig_vk(g)) == VK)),
       # derived: npos = number of PO/PK parameters (they form a prefix)
       0 <= sig_npos(g), sig_npos(g) <= n,
-      z3.ForAll([i], z3.Implies(inr(i), (k(i) <= PK) == (i < sig_npos(g))), patterns=[k(i)]),
+      _forall([i], z3.Implies(inr(i), (k(i) <= PK) == (i < sig_npos(g))), patterns=[k(i)]),
       # consequences of the ordering (stated so that the solver need not find the instances):
       # *args directly follows the PO/PK prefix, **kwargs is last
       z3.Implies(sig_vps(g) >= 0, sig_vps(g) == sig_npos(g)),
       z3.Implies(sig_vk(g) >= 0, sig_vk(g) == n - 1),
       # derived: npo = number of PO parameters (a prefix as well)
       0 <= sig_npo(g), sig_npo(g) <= sig_npos(g),
-      z3.ForAll([i], z3.Implies(inr(i), (k(i) == PO) == (i < sig_npo(g))), patterns=[k(i)]),
+      _forall([i], z3.Implies(inr(i), (k(i) == PO) == (i < sig_npo(g))), patterns=[k(i)]),
   )
 
 
@@ -234,13 +245,13 @@ def Canon(g, has):
   vps = sig_vps(g)
   return z3.And(
       # only int and str keys
-      z3.ForAll([v], z3.Implies(has[v], z3.Or(is_VInt(v), is_VStr(v))), patterns=[has[v]]),
-      z3.ForAll([i], z3.Implies(
+      _forall([v], z3.Implies(has[v], z3.Or(is_VInt(v), is_VStr(v))), patterns=[has[v]]),
+      _forall([i], z3.Implies(
           has[IK(i)],
           z3.And(i >= 0,
                  z3.Or(z3.And(i < sig_n(g), sig_kind(g, i) == PO),
                        z3.And(vps >= 0, i >= vps)))), patterns=[has[IK(i)]]),
-      z3.ForAll([s], z3.Implies(
+      _forall([s], z3.Implies(
           has[SK(s)],
           z3.Or(z3.And(sig_idx(g, s) >= 0,
                        z3.Or(sig_kind(g, sig_idx(g, s)) == PK, sig_kind(g, sig_idx(g, s)) == KO)),
@@ -263,7 +274,7 @@ def Closed(g, has, nv):
       nv >= 0,
       z3.Implies(vps < 0, nv == 0),
       z3.Implies(vps >= 0,
-                 z3.ForAll([j], z3.Implies(j >= vps, has[IK(j)] == (j < vps + nv)),
+                 _forall([j], z3.Implies(j >= vps, has[IK(j)] == (j < vps + nv)),
                            patterns=[has[IK(j)]])))
 
 
